@@ -9,6 +9,7 @@ type Node struct {
 	Beg, End int // span in the source
 	Keys     []Key
 	Elems    []*Node // array elements or object member values (parallel to Keys)
+	Dirty    bool    // set by editing helpers: the subtree no longer equals its source span
 }
 
 // Key is an object key: raw literal span and decoded string.
@@ -68,6 +69,10 @@ func buildNode(doc []byte, toks []Token, p *int) *Node {
 
 // Render writes the tree back compactly, copying token texts from doc.
 func (n *Node) Render(doc []byte, buf *bytes.Buffer) {
+	if !n.Dirty {
+		buf.Write(doc[n.Beg:n.End]) // untouched subtrees are copied verbatim, white space included
+		return
+	}
 	switch n.Kind {
 	case TObjOpen:
 		buf.WriteByte('{')
@@ -119,14 +124,105 @@ func DropEarlierDuplicates(doc []byte) (out []byte, n int) {
 				ks = append(ks, k)
 				es = append(es, x.Elems[i])
 			}
+			if len(ks) != len(x.Keys) {
+				x.Dirty = true
+			}
 			x.Keys, x.Elems = ks, es
 		}
 		for _, e := range x.Elems {
 			walk(e)
+			x.Dirty = x.Dirty || e.Dirty
 		}
 	}
 	walk(root)
 	var buf bytes.Buffer
 	root.Render(doc, &buf)
 	return buf.Bytes(), n
+}
+
+// DupRef names one object member: object ordinal in pre-order, member index.
+type DupRef struct{ Obj, Member int }
+
+func numberObjects(root *Node) map[*Node]int {
+	ids := map[*Node]int{}
+	var walk func(x *Node)
+	walk = func(x *Node) {
+		if x.Kind == TObjOpen {
+			ids[x] = len(ids)
+		}
+		for _, e := range x.Elems {
+			walk(e)
+		}
+	}
+	walk(root)
+	return ids
+}
+
+// EarlierDuplicates lists, for every object of the document, the members that
+// are followed by a later member with an equal decoded key.
+func EarlierDuplicates(doc []byte) []DupRef {
+	root := Parse(doc)
+	if root == nil {
+		return nil
+	}
+	ids := numberObjects(root)
+	var out []DupRef
+	var walk func(x *Node)
+	walk = func(x *Node) {
+		if x.Kind == TObjOpen {
+			last := map[string]int{}
+			for i, k := range x.Keys {
+				last[k.Str] = i
+			}
+			for i, k := range x.Keys {
+				if last[k.Str] != i {
+					out = append(out, DupRef{ids[x], i})
+				}
+			}
+		}
+		for _, e := range x.Elems {
+			walk(e)
+		}
+	}
+	walk(root)
+	return out
+}
+
+// RemoveMembers returns doc (compact) without the listed members.
+func RemoveMembers(doc []byte, drop []DupRef) []byte {
+	root := Parse(doc)
+	if root == nil {
+		return doc
+	}
+	ids := numberObjects(root)
+	set := map[DupRef]bool{}
+	for _, d := range drop {
+		set[d] = true
+	}
+	var walk func(x *Node)
+	walk = func(x *Node) {
+		if x.Kind == TObjOpen {
+			var ks []Key
+			var es []*Node
+			for i, k := range x.Keys {
+				if set[DupRef{ids[x], i}] {
+					continue
+				}
+				ks = append(ks, k)
+				es = append(es, x.Elems[i])
+			}
+			if len(ks) != len(x.Keys) {
+				x.Dirty = true
+			}
+			x.Keys, x.Elems = ks, es
+		}
+		for _, e := range x.Elems {
+			walk(e)
+			x.Dirty = x.Dirty || e.Dirty
+		}
+	}
+	walk(root)
+	var buf bytes.Buffer
+	root.Render(doc, &buf)
+	return buf.Bytes()
 }
